@@ -77,7 +77,7 @@ def run_impl(histories, profile="debug", snap=False, timeout=600, exe=None, env=
         inp = format_histories(todo)
         args = [exe] + (["--snap"] if snap else [])
         # a batch normally takes seconds; a hang (an endless loop in the implementation) is cut off early
-        timeout = min(timeout, max(90, int(0.05 * sum(len(o) for _, o in todo))))
+        timeout = min(timeout, max(60, int(0.004 * sum(len(o) for _, o in todo))))
         try:
             if profile == "asan" and env is None:
                 env = dict(os.environ, ASAN_OPTIONS="detect_leaks=0:abort_on_error=1")
